@@ -564,6 +564,9 @@ func (env *Env) call(e *Expr) SV {
 		return SV{T: sliceAcc(a.T, 3), Ty: it}
 	case "real":
 		return SV{T: ToReal(arg(0).T)}
+	case "itoa":
+		theU.DeclFunc("itoa", SStr, SInt)
+		return SV{T: App("itoa", SStr, arg(0).T), Ty: types.Typ[types.String]}
 	case "i2f":
 		return SV{T: x.i2f(st, arg(0).T)}
 	case "fdiv", "fmul", "fadd", "fsub":
@@ -614,8 +617,12 @@ func (env *Env) call(e *Expr) SV {
 		r := Select(st.heapArr(ghRd, heapSorts[ghRd]), arg(0).T)
 		x.strFacts(st, r)
 		return SV{T: r, Ty: types.Typ[types.String]}
+	case "wkey":
+		wa := arg(0)
+		return SV{T: x.bufKeyT(st, wa.T, wa.Ty), Ty: it}
 	case "written":
-		r := x.bufGet(st, arg(0).T)
+		wa := arg(0)
+		r := x.bufGetT(st, wa.T, wa.Ty)
 		x.strFacts(st, r)
 		return SV{T: r, Ty: types.Typ[types.String]}
 	case "sumdw":
